@@ -152,6 +152,44 @@ def titles_distinct(i, j, k, same12, same23):
     return set(gen) == set(names) and all(gen[c.__name__] == c for c in classes)
 
 
+def titles_distinct_positions(k):
+    """several DIFFERENT object schemas titled alike, one of them at position k: all classes get distinct names
+    and the generated module defines every one of them"""
+    from vf.common import parse, get_object_classes, serialize_python, exec_generated, classes_of
+
+    def pt(i):
+        return {"type": "object", "title": "Point", "properties": {"c%d" % i: {"type": "integer"}}}
+
+    doc = {"type": "object", "title": "Route", "properties": {"start": pt(0)}, "definitions": {}}
+    positions = [
+        lambda d, x: d["properties"].__setitem__("tup", {"type": "array", "items": [x, {"type": "integer"}]}),
+        lambda d, x: d["properties"].__setitem__("tup", {"items": [{"type": "integer"}, x], "additionalItems": pt(8)}),
+        lambda d, x: d["properties"].__setitem__("arr", {"type": "array", "items": x, "contains": pt(8)}),
+        lambda d, x: d.__setitem__("anyOf", [{"type": "null"}, x, pt(8)]),
+        lambda d, x: d.__setitem__("patternProperties", {"^p": x, "^q": pt(8)}),
+        lambda d, x: d.__setitem__("additionalProperties", x),
+        lambda d, x: d.__setitem__("dependencies", {"start": x, "tup": pt(8)}),
+        lambda d, x: d["definitions"].__setitem__("P", x),
+        lambda d, x: d["properties"].__setitem__("neg", {"not": x, "oneOf": [pt(8), {"type": "string"}]}),
+        lambda d, x: d["properties"].__setitem__("tl", dict(x, type=["object", "null"])),
+        lambda d, x: d["properties"].__setitem__("nest", {"type": "object", "title": "Point", "properties": {"inner": x}}),
+    ]
+    positions[k](doc, pt(9))
+    els = parse(doc)
+    classes = []
+    for c in get_object_classes(*els):
+        if not any(c is d for d in classes):
+            classes.append(c)
+    names = [c.__name__ for c in classes]
+    if len(set(names)) != len(names):
+        return False
+    ns = exec_generated(serialize_python(*els))
+    if ns is None:
+        return False
+    gen = classes_of(ns)
+    return set(gen) == set(names) and all(gen[c.__name__] == c for c in classes)
+
+
 # exclusion predicates for the known findings (narrow: they describe the defect's input class)
 ALNUM_NOT_IDENT = "all((not c.isalnum()) or ('a' + c).isidentifier() for c in s)"
 SEPARATORS = "('_', ' ', '-', chr(9), chr(10), chr(11), chr(12), chr(13))"
@@ -229,6 +267,8 @@ def harnesses(ctx) -> List[H]:
     hs.append(mk("c12_title_distinct", "i: int, j: int, k: int, same12: bool, same23: bool", ["0 <= i < 4", "0 <= j < 4", "0 <= k < 4"],
                  "return titles_distinct(i, j, k, same12, same23)", timeout=600, group="title",
                  covers="three object schemas with titles from {A, a, 'A 1', A_1}, equal or unequal bodies: class names pairwise distinct, generated module defines exactly them"))
+    hs.append(mk("c12_title_distinct_positions", "k: int", ["0 <= k < 11"], "return titles_distinct_positions(concretize_int(k, 0, 10))", timeout=200, group="title",
+                 covers="three different object schemas titled 'Point', one at each of 11 schema positions (tuple items, additionalItems, contains, anyOf, pattern/additional properties, dependencies, definitions, not/oneOf, type list, nested)"))
     # ---- reachability twins
     hs.append(mk("c12__symbol", "s: str", ["len(s) == 1", "ord(s[0]) < 128"], "return not (attr_valid(s) and not s.isalnum() and s not in '_- ')", kind="witness", timeout=60))
     hs.append(mk("c12__title", "t: str", ["1 <= len(t) <= 2"], "return not (title_valid(t) and len(_title_format(t)) >= 2)", kind="witness", timeout=60))
